@@ -284,6 +284,8 @@ func main() {
 		}
 	})
 	samples = append(samples, map[string]any{"analytic_shapes": len(shapes), "settings": len(settings), "jobs": len(jobs), "example": shapes[12].name})
+	c.Guard("triangles checked > 100000", trans > 100000, fmt.Sprint(trans))
+	c.Guard("renders with output >= 9000", nontrivial >= 9000, fmt.Sprint(nontrivial))
 	c.Finish(vlib.Coverage{
 		States: states, Transitions: trans, Evaluations: states, Nontrivial: nontrivial,
 		Rule:        "states = (field, resolution, renderer setting) triples rendered through the real dual-contouring renderers; transitions = triangles checked; non-trivial = renders with output",
